@@ -105,6 +105,10 @@ fn body_with_capacity(b: &[u8], total: usize, rel: u64) -> Vec<u8> {
 }
 
 pub fn run(args: &Args) -> Report {
+    #[cfg(feature = "net")]
+    if args.stage == "c01cli" {
+        return crate::c01_cli::run(args);
+    }
     let mut rep = Report::new(
         args,
         "c01-inproc",
